@@ -10,12 +10,15 @@ map are exactly `unusedNames` (proved through the model's specialise / resolve p
 `Proofs/Warn.lean`); `warn_unused_spec_eq`: likewise its `unusedSpecs` are exactly
 `unusedSpecNames sh`; `warn_undefined_eq`: its `undefined` map holds exactly `undefinedNames sh`
 (plus `_`, which is dropped when the warnings are printed) — through `validation_is_meaning` (C02),
-i.e. through the dependency-ordered expansion.  Per grammar the run checks model = library exactly and
-library/binary = spec.
+i.e. through the dependency-ordered expansion; `warnings_harmless` — deleting the definitions (plain,
+for the target shell, any) of a name no statement mentions leaves the validated expression unchanged
+(`Proofs/Harmless.lean`).  Per grammar the run checks model = library exactly and library/binary =
+spec.
 -/
 import Complgen.Spec.Warn
 import Complgen.Proofs.Warn
 import Complgen.Proofs.Meaning
+import Complgen.Proofs.Harmless
 namespace Complgen.Props.C15
 open Complgen Complgen.Spec
 
@@ -130,5 +133,20 @@ still stand for "any word" in the grammar's meaning for the target shell, `_` ex
 theorem warn_undefined_eq (g : Grammar) (sh : Shell) (v : Check.Valid) (h : Check.validate g sh = .ok v) (n : String) :
     (n ∈ v.undefined.map (·.1) ∧ n ≠ "_") ↔ n ∈ undefinedNames sh g :=
   Check.validate_undefined_eq g sh v h n
+
+/-- **Warnings are harmless**: a definition that is warned about as unused — its name occurs in no
+statement — does not take part in the grammar's meaning.  `q` selects definitions of `n` (e.g.
+`Check.isPlainDefOf n`, `Check.isSpecDefOf n sh`); whenever the model accepts the grammar with and
+without them, the validated expression (from which the automaton and every script are built) is the
+same. -/
+theorem warnings_harmless (g : Grammar) (sh : Shell) (n : String) (q : Stmt → Bool) (hq : Check.DefsOf n q)
+    (v v' : Check.Valid) (hu : n ∉ referred g) (h : Check.validate g sh = .ok v)
+    (h' : Check.validate (Check.dropWhere q g) sh = .ok v') : v'.expr = v.expr :=
+  Check.validate_dropWhere g sh n q hq v v' hu h h'
+
+/-- the two selections the warnings are about -/
+theorem harmless_selections (n : String) (sh : Shell) :
+    Check.DefsOf n (Check.isPlainDefOf n) ∧ Check.DefsOf n (Check.isSpecDefOf n sh) :=
+  ⟨Check.defsOf_plain n, Check.defsOf_spec n sh⟩
 
 end Complgen.Props.C15
